@@ -367,7 +367,12 @@ func (w *World) resultSlice(fi *FuncInfo) func(ast.Expr) bool {
 		ast.Inspect(fi.Decl.Body, func(n ast.Node) bool {
 			switch x := n.(type) {
 			case *ast.ReturnStmt:
-				for _, res := range x.Results {
+				// (what only feeds the error operand - a list of collected failures - is not the result)
+				sig, _ := fi.Obj.Type().(*types.Signature)
+				for i, res := range x.Results {
+					if sig != nil && len(x.Results) == sig.Results().Len() && types.Identical(sig.Results().At(i).Type(), types.Universe.Lookup("error").Type()) {
+						continue
+					}
 					mark(res, nil)
 				}
 			case *ast.CompositeLit:
@@ -406,7 +411,10 @@ func (w *World) resultSlice(fi *FuncInfo) func(ast.Expr) bool {
 		if o == nil || !acc[o] {
 			return false
 		}
-		_, isSlice := o.Type().Underlying().(*types.Slice)
+		sl, isSlice := o.Type().Underlying().(*types.Slice)
+		if isSlice && types.Identical(sl.Elem(), types.Universe.Lookup("error").Type()) {
+			return false // a list of collected failures is not what the function produces per element
+		}
 		return isSlice
 	}
 }
